@@ -247,6 +247,28 @@ def run(ctx):
                 r3.violation("lookup-order", "the suffix fallback is not subordinate to a failed whole-word look-up", common.fn_line(prog, lk[0]))
     r3.floor(4, "stored key, stored value, look-up key, look-up order")
 
+    # ---------------- R6 one split per looked-up text
+    r6 = chk.rule("C09.R6", "the text looked up for a suffixed word is the join of one base with one suffix (no string is carried from one split point to the next)",
+                  "for that word followed by a known suffix the preselected index points at the correspondingly joined candidate; the store holds only candidate texts")
+    if len(lk) == 1:
+        from . import roles as _roles
+        lb2 = _roles.ib(prog, lk[0])
+        has_suffix = lambda body: any(lb2.blocks[x]["term"]["k"] == "call" and callee_name(lb2.blocks[x]["term"]).endswith("Data::find_suffix") for x in body)
+        carried = phonetic.loop_carried_strings(lb2, has_suffix)
+        short = lk[0].split("::")[-1]
+        if not any(has_suffix(lb2.loop_body(h, tl)) for h, tl in lb2.loops().items()):
+            r6.ok("one-split", "no loop over split points: nothing can be carried between them")
+        elif not carried:
+            r6.ok("one-split", "no string is appended to inside the split-point loop")
+        for n_, (L, name, status, why, at) in enumerate(carried):
+            key = "one-split@%s#%d" % (short, n_)
+            if status == "carried":
+                r6.violation(key, "`%s` is appended to inside the loop over split points but %s — when two split points both have a learned base the looked-up "
+                             "(and stored) text is the concatenation of both joins, which is no candidate" % (name, why), site_of(lb2, at))
+            else:
+                r6.ok(key, "`%s`: %s" % (name, why))
+    r6.floor(1, "split-point loop")
+
     # ---------------- R5 alphabet agreement
     r5 = chk.rule("C09.R5", "every character the wrapping stage can add to a candidate is stripped by the splitter",
                   "the stored text is the bare candidate, so it is found again")
